@@ -296,6 +296,11 @@ func (r *Run) Parallel(t *testing.T, n int) bool {
 			cmd := exec.Command(os.Args[0], "-test.run", "^"+t.Name()+"$", "-test.timeout", "0")
 			cmd.Env = append(os.Environ(), fmt.Sprintf("VERIF_WORKER=%d/%d", k, n), "VERIF_WORKER_OUT="+out,
 				"VERIF_ANNOUNCE="+filepath.Join(dir, fmt.Sprintf("w%d.announce", k)))
+			if os.Getenv("GOMAXPROCS") == "" {
+				// one worker per core: executions are cooperative (one runnable goroutine at a
+				// time), more OS threads per worker only add contention
+				cmd.Env = append(cmd.Env, "GOMAXPROCS=2")
+			}
 			b, err := cmd.CombinedOutput()
 			results[k] = res{k, err, string(b)}
 		}(k)
